@@ -242,6 +242,29 @@ func (t toolsim) runRepair(c *Case, dir string, out *Outcome) {
 		}
 	}
 	want := e.Cur
+	// every other source is a hot backup of the history's end state (Tx.CopyFile):
+	// a valid database whose meta slots do not follow the txid parity of commits
+	fromBackup := c.Run%2 == 1
+	if fromBackup {
+		bk := filepath.Join(dir, "rbackup")
+		os.Remove(bk)
+		db, err := bolt.Open(src, 0600, &bolt.Options{ReadOnly: true})
+		if err != nil {
+			out.HarnessErr = err.Error()
+			return
+		}
+		cerr := db.View(func(tx *bolt.Tx) error { return tx.CopyFile(bk, 0600) })
+		_ = db.Close()
+		if cerr != nil {
+			out.HarnessErr = cerr.Error()
+			return
+		}
+		if err := os.Rename(bk, src); err != nil {
+			out.HarnessErr = err.Error()
+			return
+		}
+		out.probe("source-is-hot-backup", 1)
+	}
 	before := fileHash(src)
 	listDir := func() []string {
 		ents, _ := os.ReadDir(dir)
@@ -302,9 +325,14 @@ func (t toolsim) runRepair(c *Case, dir string, out *Outcome) {
 	}
 	if data, err := os.ReadFile(o1); err == nil {
 		if im, err := dec.Load(data); err == nil {
+			srcData, _ := os.ReadFile(src)
+			sim0, _ := dec.Load(srcData)
 			for mi := 0; mi < 2; mi++ {
 				if im.Metas[mi].Valid && im.Metas[mi].Freelist != dec.NoFreelist {
 					fail("not-abandoned", "after abandon meta %d still points to freelist page %d", mi, im.Metas[mi].Freelist)
+				}
+				if sim0 != nil && sim0.Metas[mi].Valid && (!im.Metas[mi].Valid || im.Metas[mi].Txid != sim0.Metas[mi].Txid || im.Metas[mi].Root != sim0.Metas[mi].Root) {
+					fail("abandon-changed-meta", "abandon changed more than the freelist pointer of meta %d (txid %d -> %d, root %d -> %d, valid=%v)", mi, sim0.Metas[mi].Txid, im.Metas[mi].Txid, sim0.Metas[mi].Root, im.Metas[mi].Root, im.Metas[mi].Valid)
 				}
 			}
 		}
@@ -339,6 +367,9 @@ func (t toolsim) runRepair(c *Case, dir string, out *Outcome) {
 	if len(out.Viol) == 0 {
 		out.Evals++
 		prev := e.Versions[e.LastTxid-1]
+		if fromBackup {
+			prev = want // both meta pages of a copy describe the same tree
+		}
 		os.Remove(o2)
 		if o, err := runCLI("surgery", "revert-meta-page", src, "--output", o2); err != nil {
 			fail("cli-error", "surgery revert-meta-page: %v (%s)", err, firstLine(o))
